@@ -91,7 +91,8 @@ DOCUMENTED_PY = {
 
 
 def _ill_typed_headers(op):
-    return any(isinstance(h[0], bytes) != isinstance(h[1], bytes) for h in op.get('headers') or [])
+    return any(isinstance(h[0], bytes) != isinstance(h[1], bytes) or not isinstance(h[0], (str, bytes)) or not isinstance(h[1], (str, bytes))
+               for h in op.get('headers') or [])
 
 
 def oracle_C29(run):
@@ -392,6 +393,15 @@ def oracle_C20(run):
             fs = [wire.decode_frame(f) for f in rfs]
         except wire.WireError:
             continue
+        # every complete header block that arrives is handed to the HPACK decoder, also when its stream was reset (the
+        # decoder's dynamic table is shared by all streams): judged when the delivery is accepted and consists of
+        # complete HEADERS / PUSH_PROMISE frames for reset streams
+        if r[0] == 'ok' and all(f['sid'] in R and f['type'] in (wire.HEADERS, wire.PUSH_PROMISE) and f['end_headers'] and f['len'] <= sb['max_in']
+                                for f in fs):
+            if len(obs.get('dec_recs') or []) < len(fs):
+                out.append(fail('header-block-for-reset-stream-not-decoded', i, blocks=len(fs), decoded=len(obs.get('dec_recs') or []),
+                                frames=[(f['name'], f['sid']) for f in fs][:6]))
+                continue
         ok = True
         total = 0
         for f in fs:
@@ -1034,9 +1044,103 @@ def strip_preface(run, c, data):
 # ---------------------------------------------------------------------------
 # C04  inbound flow control
 # ---------------------------------------------------------------------------
+class InLedger(object):
+    """advertised windows recomputed from observables only: the acknowledged INITIAL_WINDOW_SIZE in force when a
+    stream appeared, acknowledged changes since, WINDOW_UPDATE frames found in the output, DATA frames received"""
+
+    def __init__(self, iws):
+        self.conn = 65535
+        self.iws = iws
+        self.streams = {}
+        self.tainted = False
+
+
+def _in_ledger(run, out):
+    """independent ledger of the inbound windows against the library's own numbers"""
+    import h2.events as EV
+    led = {}
+    for i, (op, ol, ml, obs) in enumerate(run.log):
+        o = op['op']
+        if o == 'new':
+            ls = dict(op.get('ls') or [])
+            led[op['c']] = InLedger(ls.get(4, 65535))
+            continue
+        if obs is None:
+            continue
+        c = conn_of(op)
+        L = led.get(c)
+        if L is None or L.tainted:
+            continue
+        r = res(obs)
+        sb, sa = obs['snap_before'], obs['snap_after']
+        if o == 'incr_window' and r[0] == 'ok':
+            L.tainted = True            # manual increments also move the maximum: outside this ledger
+            continue
+        fr = frames_of(obs.get('appended'))
+        if fr is None:
+            L.tainted = True
+            continue
+        new_streams = [s for s in sa['streams'] if s not in sb['streams']]
+        if is_recv(op):
+            data = obs.get('xfer_data') if o == 'xfer' else op['data']
+            if r[0] != 'ok' or not before_buf_empty(run, i, c) or buflen(ol) != '0':
+                L.tainted = True
+                continue
+            rfs = raw_frames(data)
+            if rfs is None:
+                L.tainted = True
+                continue
+            acks = [e for e in obs['raw_events'] if isinstance(e, EV.SettingsAcknowledged)]
+            delta = 0
+            for e in acks:
+                ch = e.changed_settings.get(4)
+                if ch is not None and ch.original_value is not None:
+                    delta += ch.new_value - ch.original_value
+                    L.iws = ch.new_value
+            if delta and new_streams:
+                L.tainted = True        # whether the new stream saw the change depends on the order inside the delivery
+                continue
+            for s in L.streams:
+                L.streams[s] += delta
+            for s in new_streams:
+                L.streams[s] = L.iws
+            for f in rfs:
+                if f['type'] == wire.DATA and f['sid'] != 0:
+                    L.conn -= len(f['payload'])
+                    if f['sid'] in L.streams:
+                        L.streams[f['sid']] -= len(f['payload'])
+        else:
+            for s in new_streams:
+                L.streams[s] = L.iws
+        for f in fr:
+            if f['type'] == wire.WINDOW_UPDATE:
+                if f['sid'] == 0:
+                    L.conn += f['incr']
+                elif f['sid'] in L.streams:
+                    L.streams[f['sid']] += f['incr']
+        if sa['state'] == 'CLOSED':
+            continue
+        if sa['in_win'] != L.conn:
+            out.append(fail('advertised-connection-window-differs-from-ledger', i, lib=sa['in_win'], ledger=L.conn))
+            L.tainted = True
+            continue
+        for s, v in sa['streams'].items():
+            if s not in L.streams:
+                continue
+            live_before = s in sb['streams'] and sb['streams'][s][0] != 'CLOSED'
+            if v[0] == 'CLOSED' or not (live_before or s in new_streams):
+                L.streams[s] = v[3]     # frames on closed streams are credited to the connection only
+                continue
+            if v[3] != L.streams[s]:
+                out.append(fail('advertised-stream-window-differs-from-ledger', i, sid=s, lib=v[3], ledger=L.streams[s], state=v[0]))
+                L.tainted = True
+                break
+
+
 def oracle_C04(run):
     out = []
     client = roles(run)
+    _in_ledger(run, out)
     for i, (op, ol, ml, obs) in enumerate(run.log):
         if obs is None:
             continue
@@ -1169,6 +1273,14 @@ def oracle_C05(run):
             after = 'ack'
         elif is_recv(op) and r[0] == 'ok' and any(isinstance(e, EV.SettingsAcknowledged) for e in obs['raw_events']):
             after = 'settings-ack'
+        # the connection's window: whatever the library acknowledged on the application's behalf (DATA for closed
+        # streams) and whatever the application acknowledged must have come back.  Judged after every delivery and
+        # acknowledgement that leaves nothing with the application.
+        if (after or (is_recv(op) and r[0] == 'ok')) and not S['taint'] and S['acked'] == S['recv'] and sa['state'] != 'CLOSED' \
+                and sa['in_max'] > 0 and sa['in_win'] <= 0:
+            out.append(fail('connection-window-stalled', i, win=sa['in_win'], max=sa['in_max'], after=after or 'delivery'))
+            S['taint'] = True
+            continue
         if after and not S['taint'] and S['acked'] == S['recv'] and sa['state'] != 'CLOSED':
             for s, v in sa['streams'].items():
                 if v[0] in ('OPEN', 'HALF_CLOSED_LOCAL') and S['sacked'].get(s, 0) == S['srecv'].get(s, 0) \
@@ -1303,6 +1415,9 @@ def oracle_C08(run):
                     continue
                 g = per[(c, sid)] = {'final': False, 'trailers': False, 'ended': False, 'opened_by': 'self'}
             info = (not client[c]) and is_info(op['headers'])
+            if g['ended']:
+                out.append(fail('send-after-end-stream', i, sid=sid, op=o))
+                continue
             if g['trailers']:
                 out.append(fail('headers-after-trailers', i, sid=sid))
                 continue
@@ -1323,6 +1438,9 @@ def oracle_C08(run):
                 # DATA / END_STREAM went out on a stream that nobody opened: no successful send_headers, no
                 # request from the peer, no promise, no upgrade
                 out.append(fail('data-or-end-stream-before-final-headers', i, sid=sid, op=o, opened_by='nobody'))
+                continue
+            if g['ended']:
+                out.append(fail('send-after-end-stream', i, sid=sid, op=o))
                 continue
             if not g['final']:
                 out.append(fail('data-or-end-stream-before-final-headers', i, sid=sid, op=o, opened_by=g['opened_by']))
@@ -1393,6 +1511,31 @@ def oracle_C09(run):
                         elif sb['closed'] is not None and closed_by is None and sid > 0:
                             if not (r[0] == 'exc' and r[2] == 1):
                                 out.append(fail('bad-stream-id-not-PROTOCOL_ERROR', i, sid=sid, got=obs['res']))
+            # a PUSH_PROMISE that promises an id which is not idle (RFC 7540 5.1.1 / 6.6): judged like HEADERS on it
+            if rfs and len(rfs) == 1 and rfs[0]['type'] == wire.PUSH_PROMISE and (rfs[0]['flags'] & 4) and not (rfs[0]['flags'] & 8) \
+                    and before_buf_empty(run, i, c) and client[c] and sb['state'] == 'CLIENT_OPEN' and len(rfs[0]['payload']) <= sb['max_in'] \
+                    and len(rfs[0]['payload']) >= 4 and (sb['local'].get(2) or [1])[0] == 1:
+                parent = rfs[0]['sid']
+                promised = struct.unpack('>I', rfs[0]['payload'][:4])[0] & 0x7FFFFFFF
+                pst = sb['streams'].get(parent)
+                dec_ok = obs['dec_recs'] and obs['dec_recs'][-1]['res'][0] == 'ok'
+                if pst and parent % 2 == 1 and pst[0] in ('OPEN', 'HALF_CLOSED_LOCAL') and dec_ok and promised > 0:
+                    mark = sb['hi_out'] if promised % 2 == 1 else sb['hi_in']
+                    if promised <= mark:
+                        if promised in sb['streams']:
+                            closed_by = sb['streams'][promised][1]
+                        else:
+                            closed_by = (sb['closed'] or {}).get(promised)
+                        fr = frames_of(obs.get('appended')) or []
+                        if closed_by in ('SEND_RST_STREAM', 'RECV_RST_STREAM'):
+                            if not (r[0] == 'ok' and any(f['type'] == wire.RST_STREAM and f['sid'] == promised and f['code'] == 5 for f in fr)):
+                                out.append(fail('promise-of-reset-stream-not-stream-error', i, promised=promised, got=obs['res']))
+                        elif closed_by in ('SEND_END_STREAM', 'RECV_END_STREAM'):
+                            if not (r[0] == 'exc' and r[2] == 5):
+                                out.append(fail('promise-of-ended-stream-not-STREAM_CLOSED', i, promised=promised, got=obs['res']))
+                        elif sb['closed'] is not None and closed_by is None:
+                            if not (r[0] == 'exc' and r[2] == 1):
+                                out.append(fail('promise-of-used-id-not-PROTOCOL_ERROR', i, promised=promised, got=obs['res']))
     return out
 
 
@@ -1402,7 +1545,12 @@ def oracle_C09(run):
 def oracle_C10(run):
     out = []
     client = roles(run)
+    acked = {}      # conn -> {'limit': acknowledged local MAX_CONCURRENT_STREAMS, 'pending': [settings of frames in flight], 'taint'}
     for i, (op, ol, ml, obs) in enumerate(run.log):
+        if op['op'] == 'new':
+            ls = dict(op.get('ls') or [])
+            acked[op['c']] = {'limit': ls.get(3, 100), 'pending': [], 'taint': False}
+            continue
         if obs is None:
             continue
         o = op['op']
@@ -1410,6 +1558,32 @@ def oracle_C10(run):
         sb, sa = obs['snap_before'], obs['snap_after']
         r = res(obs)
         own = 1 if client[c] else 0
+        A = acked.get(c)
+        if A is not None and A.get('taint_after') is not None and i > A['taint_after']:
+            A['taint'] = True
+        if A is not None and not A['taint']:
+            if o == 'update_settings' and r[0] == 'ok':
+                A['pending'].append(dict(op['settings']))
+                # acknowledgements are matched per setting by the library (known finding D8, C11): with frames in flight
+                # that carry other settings as well, which ACK moves this one is not what this property is about
+                if len(A['pending']) > 1 and any(set(p_) - {3} for p_ in A['pending']):
+                    A['taint'] = True
+            elif o in ('initiate_connection', 'initiate_upgrade') and r[0] == 'ok':
+                A['pending'].append({})
+            elif is_recv(op):
+                data = obs.get('xfer_data') if o == 'xfer' else op['data']
+                rfs0 = raw_frames(data) if before_buf_empty(run, i, c) and buflen(ol) == '0' else None
+                if rfs0 is None:
+                    A['taint'] = True
+                else:
+                    for f in rfs0:
+                        if f['type'] == wire.SETTINGS and (f['flags'] & 1) and not f['payload']:
+                            if A['pending']:
+                                fr0 = A['pending'].pop(0)
+                                if 3 in fr0:
+                                    A['limit'] = fr0[3]
+                    if r[0] != 'ok':
+                        A['taint_after'] = i      # a refused delivery is still judged itself; nothing after it is
 
         def count(snap, par):
             return sum(1 for s, v in snap['streams'].items() if s % 2 == par and v[0] in ('OPEN', 'HALF_CLOSED_LOCAL', 'HALF_CLOSED_REMOTE'))
@@ -1449,6 +1623,15 @@ def oracle_C10(run):
                                                    ('OPEN', 'HALF_CLOSED_LOCAL', 'HALF_CLOSED_REMOTE')
                                                    for s_, v in sb['streams'].items()) else 'new-stream'
                     out.append(fail('inbound-streams-exceed-local-limit', i, via=via))
+            # the limit in force is the last acknowledged one (an own record of the update_settings calls and of the
+            # peer's ACK frames, not the library's settings object): a stream that fits it is not refused
+            A = acked.get(c)
+            if A is not None and not A['taint'] and r[0] == 'exc' and r[1] == 'TooManyStreamsError' and nb + 1 <= A['limit']:
+                data = obs.get('xfer_data') if o == 'xfer' else op['data']
+                rfs = raw_frames(data)
+                if rfs and len(rfs) == 1 and rfs[0]['type'] == wire.HEADERS and before_buf_empty(run, i, c):
+                    out.append(fail('stream-within-acknowledged-limit-refused', i, open=nb, acknowledged_limit=A['limit'],
+                                    library_limit=lim))
             # the limit is about opening streams: a delivery in which no frame opens one is never refused for it
             if r[0] == 'exc' and r[1] == 'TooManyStreamsError':
                 data = obs.get('xfer_data') if o == 'xfer' else op['data']
@@ -1949,7 +2132,22 @@ NON_OPENING = (wire.PRIORITY, wire.WINDOW_UPDATE, wire.RST_STREAM, wire.PING)
 def oracle_C27(run):
     out = []
     for i, (op, ol, ml, obs) in enumerate(run.log):
-        if obs is None or not is_recv(op):
+        if obs is None:
+            continue
+        # C27_bounded_every_history: the two capped stores, in every state — also after a connection error
+        sa = obs.get('snap_after') or {}
+        if sa.get('hdr_backlog', 0) > 64:
+            out.append(fail('header-block-backlog-above-limit', i, backlog=sa['hdr_backlog']))
+            break
+        nclosed = None
+        for part in (ol or '').split(' | '):
+            if part.startswith('st='):
+                f = part[3:].split(',')
+                nclosed = int(f[1]) if len(f) > 1 and f[1].isdigit() else None
+        if nclosed is not None and nclosed > 2 ** 16:
+            out.append(fail('closed-stream-memory-above-limit', i, entries=nclosed))
+            break
+        if not is_recv(op):
             continue
         c = conn_of(op)
         data = obs.get('xfer_data') if op['op'] == 'xfer' else op['data']
@@ -2328,11 +2526,148 @@ def oracle_C25(run):
     return out
 
 
+# ---------------------------------------------------------------------------
+# C23  priority information round-trips and never changes stream state
+# ---------------------------------------------------------------------------
+def _prio_want(op):
+    pw, pd, pe = op.get('pw'), op.get('pd'), op.get('pe')
+    for x in (pw, pd):
+        if x is not None and (isinstance(x, bool) or not isinstance(x, int)):
+            return 'skip'
+    if pe is not None and not isinstance(pe, (bool, int)):
+        return 'skip'
+    if pw is None and pd is None and pe is None:
+        return None
+    return (pd if pd is not None else 0, pw if pw is not None else 16, bool(pe) if pe is not None else False)
+
+
+def oracle_C23(run):
+    """send side: the PRIORITY frame / the priority fields of the HEADERS frame carry exactly the call's arguments
+    (defaults: weight 16, no dependency, not exclusive).  Receive side: a PRIORITY frame is reported as exactly one
+    PriorityUpdated with the frame's fields and leaves every stream as it was; the priority fields of a HEADERS frame
+    come out on the header event."""
+    out = []
+    import h2.events as EV
+    client = roles(run)
+    for i, (op, ol, ml, obs) in enumerate(run.log):
+        if obs is None:
+            continue
+        o = op['op']
+        c = conn_of(op)
+        r = res(obs)
+        sb, sa = obs['snap_before'], obs['snap_after']
+        if o in ('prioritize', 'send_headers') and r[0] == 'ok':
+            want = _prio_want(op)
+            fr = frames_of(obs.get('appended'))
+            if want == 'skip' or fr is None:
+                continue
+            if o == 'prioritize':
+                if want is None:
+                    want = (0, 16, False)
+                if len(fr) != 1 or fr[0]['type'] != wire.PRIORITY or fr[0]['sid'] != op['sid'] or fr[0]['prio'] != want:
+                    out.append(fail('priority-frame-differs-from-call', i, want=want,
+                                    got=[(f['name'], f['sid'], f.get('prio')) for f in fr]))
+                elif sa['streams'] != sb['streams']:
+                    out.append(fail('prioritize-changed-stream-state', i, sid=op['sid']))
+            else:
+                hf = [f for f in fr if f['type'] == wire.HEADERS]
+                if hf and hf[0].get('prio') != want:
+                    out.append(fail('headers-priority-differs-from-call', i, want=want, got=hf[0].get('prio')))
+            continue
+        if not is_recv(op) or sb['state'] not in ('CLIENT_OPEN', 'SERVER_OPEN'):
+            continue
+        data = obs.get('xfer_data') if o == 'xfer' else op['data']
+        rfs = raw_frames(data) if before_buf_empty(run, i, c) and buflen(ol) == '0' else None
+        if rfs is None or len(rfs) != 1:
+            continue
+        f = rfs[0]
+        if f['type'] == wire.PRIORITY and len(f['payload']) == 5 and not f.get('r'):
+            dep, w = struct.unpack('>IB', f['payload'])
+            want = (dep & 0x7FFFFFFF, w + 1, bool(dep >> 31))
+            bad = f['sid'] == 0 or want[0] == f['sid']
+            if bad:
+                if r[0] == 'ok':
+                    out.append(fail('malformed-priority-accepted', i, sid=f['sid'], prio=want))
+                continue
+            if r[0] != 'ok':
+                out.append(fail('valid-priority-frame-rejected', i, sid=f['sid'], prio=want, got=obs['res']))
+                continue
+            evs = obs['raw_events']
+            got = [(e.stream_id, e.depends_on, e.weight, bool(e.exclusive)) for e in evs if isinstance(e, EV.PriorityUpdated)]
+            if len(evs) != 1 or got != [(f['sid'],) + want]:
+                out.append(fail('priority-frame-not-reported-exactly', i, want=(f['sid'],) + want, got=got, events=ev_kinds(obs)))
+            elif sa['streams'] != sb['streams'] or obs.get('appended'):
+                out.append(fail('priority-frame-changed-state-or-wrote', i, sid=f['sid']))
+        elif f['type'] == wire.HEADERS and (f['flags'] & 4) and (f['flags'] & 0x20) and r[0] == 'ok':
+            try:
+                d = wire.decode_frame(f)
+            except wire.WireError:
+                continue
+            want = d['prio']
+            evs = obs['raw_events']
+            heads = [e for e in evs if isinstance(e, (EV.RequestReceived, EV.ResponseReceived, EV.TrailersReceived,
+                                                      EV.InformationalResponseReceived))]
+            if not heads:
+                continue
+            pu = getattr(heads[0], 'priority_updated', None)
+            got = None if pu is None else (pu.depends_on, pu.weight, bool(pu.exclusive))
+            if got != want or (pu is not None and pu.stream_id != f['sid']):
+                out.append(fail('headers-priority-not-reported-exactly', i, want=want, got=got))
+    return out
+
+
+# ---------------------------------------------------------------------------
+# C06  frames for streams that are still idle (the connection's part of RFC 7540 section 5.1)
+# ---------------------------------------------------------------------------
+def oracle_C06(run):
+    """DATA, WINDOW_UPDATE, CONTINUATION and PUSH_PROMISE (as the parent) for a stream id the connection has not seen
+    yet is a connection error: the delivery raises and the connection is closed afterwards.  (HEADERS opens the
+    stream, PRIORITY is allowed anywhere; the library's tolerance of RST_STREAM and ALTSVC there is documented.)  The
+    rest of the property is decided by the theorems over the regenerated table and by the correspondence."""
+    out = []
+    client = roles(run)
+    for i, (op, ol, ml, obs) in enumerate(run.log):
+        if obs is None or not is_recv(op):
+            continue
+        c = conn_of(op)
+        sb, sa = obs['snap_before'], obs['snap_after']
+        if sb['state'] not in ('CLIENT_OPEN', 'SERVER_OPEN'):
+            continue
+        data = obs.get('xfer_data') if op['op'] == 'xfer' else op['data']
+        rfs = raw_frames(data) if before_buf_empty(run, i, c) and buflen(ol) == '0' else None
+        if rfs is None or len(rfs) != 1:
+            continue
+        f = rfs[0]
+        sid = f['sid']
+        if sid == 0 or f['type'] not in (wire.DATA, wire.WINDOW_UPDATE, wire.CONTINUATION, wire.PUSH_PROMISE):
+            continue
+        if f['type'] == wire.PUSH_PROMISE and sid not in sb['streams'] and sb.get('closed') is not None and sid in sb['closed'] \
+                and sb['closed'][sid] != 'SEND_RST_STREAM':
+            # a promise on a stream that is closed and gone, and that we did not reset ourselves (the peer reset it, or it
+            # ended): nothing may be promised on it any more — a connection error.  (Only our own reset excuses the peer:
+            # the promise may have crossed it.)
+            r = res(obs)
+            if r[0] == 'ok' or sa['state'] != 'CLOSED':
+                out.append(fail('promise-on-closed-parent-not-a-connection-error', i, parent=sid, closed_by=sb['closed'][sid], got=obs['res']))
+            continue
+        outbound = (sid % 2) == (1 if client[c] else 0)
+        idle = sid not in sb['streams'] and sid > (sb['hi_out'] if outbound else sb['hi_in']) \
+            and (sb.get('closed') is not None and sid not in sb['closed'])
+        if not idle:
+            continue
+        r = res(obs)
+        if r[0] == 'ok' or sa['state'] != 'CLOSED':
+            out.append(fail('frame-on-idle-stream-not-a-connection-error', i, frame=wire.NAMES[f['type']], sid=sid, got=obs['res'],
+                            state_after=sa['state']))
+    return out
+
+
 from oracle_c01 import oracle_C01 as oracle_C01_v2  # noqa: E402
 
 ORACLES = {
     'C01': oracle_C01_v2,
     'C02': oracle_C02, 'C03': oracle_C03, 'C04': oracle_C04, 'C05': oracle_C05, 'C07': oracle_C07, 'C08': oracle_C08,
     'C09': oracle_C09, 'C10': oracle_C10, 'C11': oracle_C11, 'C12': oracle_C12, 'C14': oracle_C14, 'C15': oracle_C15, 'C16': oracle_C16, 'C13': oracle_C13, 'C17': oracle_C17, 'C18': oracle_C18,
+    'C06': oracle_C06, 'C23': oracle_C23,
     'C19': oracle_C19, 'C20': oracle_C20, 'C21': oracle_C21, 'C22': oracle_C22, 'C24': oracle_C24, 'C25': oracle_C25, 'C26': oracle_C26, 'C27': oracle_C27, 'C29': oracle_C29,
 }
